@@ -138,6 +138,34 @@ class CR(Persistent):
         return res
 
 
+import datetime as _datetime
+
+SHARED_DAY = _datetime.date(2020, 1, 2)
+CRS_SEEN = []   # (old, committed, new) 'day' values as the resolver saw them
+
+
+class CRS(CR):
+    """Like CR in mode 'merge', but the object's state shares an object
+    with its class metadata: __getnewargs__ returns the very `day` that is
+    also an attribute (both parts of a record are written by one pickler,
+    so the state refers back into the class part).  The merged state is
+    built from the committed one."""
+
+    def __new__(cls, day=None):
+        return Persistent.__new__(cls)
+
+    def __getnewargs__(self):
+        return (self.day,)
+
+    def _p_resolveConflict(self, old, committed, new):
+        CR_LOG.append((cr_sem(old), cr_sem(committed), cr_sem(new)))
+        CRS_SEEN.append(tuple(repr(s.get('day'))
+                              for s in (old, committed, new)))
+        res = dict(committed)
+        res['v'] = committed['v'] + new['v'] - old['v']
+        return res
+
+
 class CRarity(Persistent):
     """Resolver with the wrong arity."""
 
